@@ -105,6 +105,9 @@ def build_world() -> World:
     s("_emit_listeners", DictSort(STR, ListSort(Callable_)))
     s("_after_events", DictSort(STR, Ref("Flag")))      # sync engine: timer key -> cancellation flag
     s("_after_threads", DictSort(STR, OPAQUE))
+    s("_pending_send_cancels", SetSort(Ref("Flag")))
+    s("_scheduled_sends", DictSort(STR, Callable_))
+    s("_actors", DictSort(STR, Interp))
     s("_event_queue", ListSort(Ev))            # collections.deque, modelled as a list (append / popleft / clear)
     # ghost state of C04 (exists only in verification conditions):
     s("g_accepted", ListSort(Ev))              # every event accepted by send()/send_events() while running, in order
@@ -213,6 +216,14 @@ def build_world() -> World:
         if name == "threading.Thread":
             return [(st, fresh(OPAQUE, "thread"))]     # the thread BODY is a concurrent entry point, not executed here (A-seq)
         if name in ("<Opaque>.start",):
+            return [(st, fresh(OPAQUE, "none"))]
+        if name == "<Flag>.set" and isinstance(recv, Val):
+            arr = st.heap[("Flag", "is_set")]
+            eng.write_heap(st, ("Flag", "is_set"), Val(arr.sort, (z3.Store(arr.t[0], recv.z, z3.BoolVal(True)),)))
+            return [(st, fresh(OPAQUE, "none"))]
+        # another interpreter (child / parent actor): A-actors - it never writes THIS interpreter's private
+        # fields; what it sends back arrives through send() (queue), which stop()/start() of a child do not do
+        if isinstance(recv, Val) and recv.sort == Interp and name in ("<Interp>.stop", "<Interp>.start"):
             return [(st, fresh(OPAQUE, "none"))]
         # A user-supplied callable (subscriber, emit listener, action, guard, service ...):
         # may return anything, may raise any Exception subclass that is not a library error
